@@ -882,7 +882,7 @@ match Err(Error::StoppedByWatchdog).locate($1) { Ok(()) => (), Err(e) => return 
                 counter > 0 ==> self.watchdog.before_op().own_polls() == self.own_polls(),                              //@ob C13.loop.execute.iter.polls_before_executing_the_opcode
                 // C08 / C03 / C06: the current thread ENDS - is retired, its state stored - when the opcode failed (in EVERY mode) or halted
                 // the path, when it runs off the end of the code or into the visit limit, or when it is out of gas (`ends_now`) ...
-                counter > 0 ==> iter_failed_opcode_ends(&self.watchdog.after_op(), self.watchdog.op_result(), self),                  //@ob C08.loop.execute.iter.failed_opcode_ends_the_thread_in_every_mode
+                counter > 0 ==> iter_failed_opcode_ends(&self.watchdog.after_op(), self.watchdog.op_result(), self),                  //@ob C08.loop.execute.iter.failed_opcode_ends_the_thread_in_every_mode C05.loop.execute.iter.nothing_runs_behind_a_failed_opcode
                 counter > 0 ==> iter_halting_opcode_ends(&self.watchdog.after_op(), self),                                            //@ob C08.loop.execute.iter.halting_opcode_ends_the_path
                 counter > 0 ==> iter_limits_end(&self.watchdog.after_op(), self),                                                     //@ob C03.loop.execute.iter.thread_ends_at_the_end_of_the_code_or_the_visit_limit
                 counter > 0 ==> iter_out_of_gas_ends(&self.watchdog.after_op(), self.watchdog.op_result(), self.watchdog.last_op(), self),      //@ob C03.loop.execute.iter.thread_ends_when_out_of_gas_in_both_modes
